@@ -29,7 +29,9 @@ def gen_program(rng):
     forms = [HEADER]
     use_lib = rng.random() < 0.3
     if use_lib:
-        forms[0] = "(import (scheme base) (scheme write) (mylib))"
+        # one or two library files beside the program (the second one imports the first)
+        forms[0] = rng.choice(["(import (scheme base) (scheme write) (mylib))", "(import (scheme base) (scheme write) (mylib) (mylib2))",
+                               "(import (scheme base) (mylib2) (scheme write) (mylib))", "(import (mylib2) (scheme base) (mylib) (scheme write))"])
     forms += ["(define (f0) 7)", "(define counter 0)", "(define (show x) (display x) (newline))"]
     n = rng.randint(3, 12)
     vals = ["42", "-7", "#t", "#f", "'sym", "\"a string\"", "'(1 2 3)", "'(1 (2 \"x\") . 3)", "(list 1 'b \"c\")", "(vector 1 2)", "'()", "#\\a", "1/2", "(+ 1 2)", "(f0)", "counter",
@@ -56,7 +58,7 @@ def gen_program(rng):
         # ONE display whose text has a line feed early and thousands of characters after it
         forms.append("(display (list \"totals per day:\n\" %s))" % " ".join(str(rng.randint(0, 999)) for _ in range(rng.choice([600, 3000]))))
     if use_lib:
-        vals += ["lib-value", "(lib-add 1 2)"]
+        vals += ["lib-value", "(lib-add 1 2)"] + (["lib2-value", "(car lib2-value)"] if "mylib2" in forms[0] else [])
     for _ in range(n):
         c = rng.random()
         if c < 0.45:
@@ -95,7 +97,7 @@ def expected_output(forms, fail, kind, use_lib):
     """stdout the program must produce (reference evaluator), up to the failing form"""
     m = Machine(Strategy(), stdlib=False)
     if use_lib:
-        m.register_library(sxread.parse_one(LIB_SRC))
+        m.register_library(sxread.parse_one(LIB_SRC)); m.register_library(sxread.parse_one(LIB2_SRC))
     out = []
     for i, t in enumerate(forms):
         if i == fail and kind == "syntax":
@@ -117,6 +119,7 @@ def expected_output(forms, fail, kind, use_lib):
 
 
 LIB_SRC = "(define-library (mylib) (import (scheme base)) (export lib-value lib-add) (begin (define lib-value 'from-program-dir) (define (lib-add a b) (+ a b 100))))"
+LIB2_SRC = "(define-library (mylib2) (import (scheme base) (mylib)) (export lib2-value) (begin (define lib2-value (list 'second lib-value (lib-add 1 2)))))"
 DECOY_SRC = "(define-library (mylib) (import (scheme base)) (export lib-value lib-add) (begin (define lib-value 'from-cwd-decoy) (define (lib-add a b) 0)))"
 
 
@@ -149,6 +152,7 @@ def run(tier, seed):
     root = tempfile.mkdtemp(prefix="c17-", dir=core.TMP)
     cwd = os.path.join(root, "elsewhere"); os.makedirs(cwd)
     open(os.path.join(cwd, "mylib.sld"), "w").write(DECOY_SRC)
+    open(os.path.join(cwd, "mylib2.sld"), "w").write("(define-library (mylib2) (export lib2-value) (begin (define lib2-value 'second-from-cwd-decoy)))")
     cases = []
     while len(cases) < n:
         forms, fail, kind, use_lib = gen_program(rng)
@@ -161,7 +165,7 @@ def run(tier, seed):
         path = os.path.join(d, "prog.scm")
         open(path, "w", newline="").write(text)
         if use_lib:
-            open(os.path.join(d, "mylib.sld"), "w").write(LIB_SRC)
+            open(os.path.join(d, "mylib.sld"), "w").write(LIB_SRC); open(os.path.join(d, "mylib2.sld"), "w").write(LIB2_SRC)
         rel = rng.random() < 0.5
         # a fifth of the programs are named by their bare file name, from their own directory (the directory part of the path is empty then)
         bare = rng.random() < 0.2
@@ -284,7 +288,7 @@ def replay(path):
     p = os.path.join(d, "prog.scm")
     open(p, "w", newline="").write(r.get("text", ""))
     if r.get("lib"):
-        open(os.path.join(d, "mylib.sld"), "w").write(LIB_SRC)
+        open(os.path.join(d, "mylib.sld"), "w").write(LIB_SRC); open(os.path.join(d, "mylib2.sld"), "w").write(LIB2_SRC)
     q = subprocess.run([core.build_cli(), "prog.scm" if r.get("arg") == "prog.scm" else p], cwd=d, stdout=subprocess.PIPE, stderr=subprocess.PIPE)
     print(r.get("text")); print("rc", q.returncode); print("stdout", q.stdout); print("stderr", ANSI.sub("", q.stderr.decode("utf8", "replace")))
     shutil.rmtree(d, ignore_errors=True)
